@@ -28,13 +28,20 @@ pub enum GT {
 
 pub type Theta = spec_fn(int) -> GT;
 
+// The value of a float is its class under IEEE `==` (0.0 and -0.0 are one value; NaN, which is not equal to
+// itself, has no value the clause talks about).  TRUSTED(T6): IEEE-754 `==` is an equivalence relation on the
+// floats that are equal to themselves; `fcanon` names a representative of each class.
+pub uninterp spec fn fcanon(f: f64) -> f64;
+pub axiom fn axiom_f64_eq_is_an_equivalence()
+    ensures forall|a: f64, b: f64| #[trigger] feq(a, b) <==> (feq(a, a) && feq(b, b) && fcanon(a) == fcanon(b));
+
 pub open spec fn ap(th: Theta, t: Unifiable) -> GT
     decreases t,
 {
     match t {
         Unifiable::Atom(s) => GT::GAtom(s@),
         Unifiable::SInteger(i) => GT::GInt(i),
-        Unifiable::SFloat(f) => GT::GFloat(f),
+        Unifiable::SFloat(f) => GT::GFloat(fcanon(f)),
         Unifiable::LogicVar{id, name} => th(id as int),
         Unifiable::SComplex(ts) => GT::GCx(ap_seq(th, ts@)),
         Unifiable::SLinkedList{term, next, count, tail_var} =>
@@ -75,7 +82,7 @@ pub open spec fn solves(th: Theta, s: SS) -> bool {
 // --- the terms the clause is about ---------------------------------------------------------
 // no `$_` (C09 covers it), no function term (C13), no bare Nil, no NaN (a float that is not equal to
 // itself), and a list is never entered at a tail-variable node
-pub open spec fn f_refl(f: f64) -> bool { vstd::std_specs::cmp::PartialEqSpec::eq_spec(&f, &f) }
+pub open spec fn f_refl(f: f64) -> bool { feq(f, f) }
 
 pub open spec fn clean(t: Unifiable) -> bool
     decreases t, 1nat,
@@ -125,11 +132,19 @@ pub open spec fn mgu_dom(a: Unifiable, b: Unifiable, s: SS) -> bool {
     clean(a) && clean(b) && clean_ss(s)
 }
 
-// --- the clause -------------------------------------------------------------------------------
+// --- the clauses ------------------------------------------------------------------------------
+// the result is again a substitution the clauses apply to
+pub open spec fn post_clean(a: Unifiable, b: Unifiable, ss: RSS, res: Option<RSS>) -> bool {
+    mgu_dom(a, b, ss@) ==> (res matches Some(r) ==> clean_ss(r@))
+}
+// complete and most general
 pub open spec fn post_mgu(a: Unifiable, b: Unifiable, ss: RSS, res: Option<RSS>) -> bool {
-    // (the result is again a substitution the clause applies to: clean_ss)
     mgu_dom(a, b, ss@) ==>
-        forall|th: Theta| #[trigger] solves(th, ss@) && ap(th, a) == ap(th, b) ==> (res matches Some(r) && solves(th, r@) && clean_ss(r@))
+        forall|th: Theta| #[trigger] solves(th, ss@) && ap(th, a) == ap(th, b) ==> (res matches Some(r) && solves(th, r@))
+}
+// sound, in the same formalism: every solution of the result gives the two terms the same value
+pub open spec fn post_thsound(a: Unifiable, b: Unifiable, ss: RSS, res: Option<RSS>) -> bool {
+    mgu_dom(a, b, ss@) ==> (res matches Some(r) ==> forall|th: Theta| #[trigger] solves(th, r@) ==> ap(th, a) == ap(th, b))
 }
 
 // --- binding a variable -----------------------------------------------------------------------
@@ -208,5 +223,146 @@ pub proof fn smoke_mgu_general(a: Unifiable, b: Unifiable, ss: RSS, res: Option<
     assert(solves(th, r@));
     if bnd(r@, a->LogicVar_id as int) matches Some(t) && t is Atom {
         assert(r@[a->LogicVar_id as int] is Some);
+    }
+}
+
+// --- solutions of an extension solve what it extends -------------------------------------------------
+pub proof fn lemma_solves_mono(th: Theta, s2: SS, s1: SS)
+    requires extends(s2, s1), solves(th, s2),
+    ensures solves(th, s1),
+{
+    assert forall|i: int| 0 <= i < s1.len() implies ((#[trigger] s1[i]) matches Some(r) ==> th(i) == ap(th, *r)) by {
+        if s1[i] is Some { assert(s2[i] == s1[i]); }
+    }
+}
+pub proof fn lemma_solves_mono_all(s1: SS)
+    ensures forall|s2: SS, th: Theta| #[trigger] extends(s2, s1) && #[trigger] solves(th, s2) ==> solves(th, s1),
+{
+    assert forall|s2: SS, th: Theta| #[trigger] extends(s2, s1) && #[trigger] solves(th, s2) implies solves(th, s1) by {
+        lemma_solves_mono(th, s2, s1);
+    }
+}
+
+// equal terms have equal values (variable names are not part of the value; floats by class)
+pub proof fn lemma_ueq_ap(th: Theta, a: Unifiable, b: Unifiable)
+    requires ueq(a, b),
+    ensures ap(th, a) == ap(th, b),
+    decreases a,
+{
+    axiom_f64_eq_is_an_equivalence();
+    reveal_with_fuel(ueq, 2);
+    match (a, b) {
+        (Unifiable::SComplex(p), Unifiable::SComplex(q)) => { lemma_ueq_ap_seq(th, p@, q@); },
+        (Unifiable::SLinkedList{term: t1, next: n1, count: _, tail_var: tv1},
+         Unifiable::SLinkedList{term: t2, next: n2, count: _, tail_var: tv2}) => {
+            lemma_ueq_ap(th, *t1, *t2);
+            lemma_ueq_ap(th, *n1, *n2);
+            assert((*t1 == Unifiable::Nil) == (*t2 == Unifiable::Nil));
+        },
+        _ => {},
+    }
+}
+pub proof fn lemma_ueq_ap_seq(th: Theta, a: Seq<Unifiable>, b: Seq<Unifiable>)
+    requires ueq_seq(a, b),
+    ensures ap_seq(th, a) == ap_seq(th, b),
+    decreases a,
+{
+    if a.len() > 0 {
+        lemma_ueq_ap(th, a[0], b[0]);
+        lemma_ueq_ap_seq(th, a.drop_first(), b.drop_first());
+    }
+}
+pub proof fn lemma_ueq_ap_all(a: Unifiable, b: Unifiable)
+    ensures ueq(a, b) ==> forall|th: Theta| #[trigger] ap(th, a) == ap(th, b),
+{
+    if ueq(a, b) { assert forall|th: Theta| #[trigger] ap(th, a) == ap(th, b) by { lemma_ueq_ap(th, a, b); } }
+}
+
+// complex terms with pointwise equal values have equal values
+pub proof fn lemma_ap_seq_ext(th: Theta, p: Seq<Unifiable>, q: Seq<Unifiable>)
+    requires p.len() == q.len(), forall|k: int| 0 <= k < p.len() ==> ap(th, #[trigger] p[k]) == ap(th, q[k]),
+    ensures ap_seq(th, p) == ap_seq(th, q),
+    decreases p.len(),
+{
+    if p.len() > 0 {
+        assert(ap(th, p[0]) == ap(th, q[0]));
+        assert forall|k: int| 0 <= k < p.drop_first().len() implies ap(th, #[trigger] p.drop_first()[k]) == ap(th, q.drop_first()[k]) by {
+            assert(p.drop_first()[k] == p[k + 1]);
+            assert(q.drop_first()[k] == q[k + 1]);
+        }
+        lemma_ap_seq_ext(th, p.drop_first(), q.drop_first());
+    }
+}
+
+// ---------------------------------------------------------------------------
+// C07 (symmetry) as a lemma over the contract of unify: `r1` is any result the contract allows for
+// unify(a, b, ss) and `r2` any result it allows for unify(b, a, ss).
+//   * if some unifier of a and b respects ss, both calls succeed;
+//   * if one call succeeds with a result that has a solution at all (no occurs-check situation),
+//     the other succeeds too;
+//   * when both succeed the two results have exactly the same solutions - every variable gets the
+//     same value under every instance of either result, which is what "equal up to renaming of unbound
+//     variables" means for two most general unifiers.
+// ---------------------------------------------------------------------------
+pub open spec fn same_solutions(r1: SS, r2: SS) -> bool {
+    forall|th: Theta| #[trigger] solves(th, r1) <==> #[trigger] solves(th, r2)
+}
+
+pub proof fn lemma_unify_symmetric(a: Unifiable, b: Unifiable, ss: RSS, res1: Option<RSS>, res2: Option<RSS>)
+    requires
+        mgu_dom(a, b, ss@),
+        post_keeps(ss, res1), post_mgu(a, b, ss, res1), post_thsound(a, b, ss, res1),
+        post_keeps(ss, res2), post_mgu(b, a, ss, res2), post_thsound(b, a, ss, res2),
+    ensures
+        (exists|th: Theta| #[trigger] solves(th, ss@) && ap(th, a) == ap(th, b)) ==> res1 is Some && res2 is Some,
+        (res1 matches Some(r1) && exists|th: Theta| #[trigger] solves(th, r1@)) ==> res2 is Some,
+        (res2 matches Some(r2) && exists|th: Theta| #[trigger] solves(th, r2@)) ==> res1 is Some,
+        (res1 matches Some(r1) && res2 matches Some(r2)) ==> same_solutions(res1.unwrap()@, res2.unwrap()@),
+{
+    if exists|th: Theta| #[trigger] solves(th, ss@) && ap(th, a) == ap(th, b) {
+        let th = choose|th: Theta| #[trigger] solves(th, ss@) && ap(th, a) == ap(th, b);
+        assert(solves(th, ss@) && ap(th, b) == ap(th, a));
+    }
+    if res1 is Some {
+        let r1 = res1.unwrap();
+        if exists|th: Theta| #[trigger] solves(th, r1@) {
+            let th = choose|th: Theta| #[trigger] solves(th, r1@);
+            lemma_solves_mono(th, r1@, ss@);
+            assert(solves(th, ss@) && ap(th, b) == ap(th, a));
+        }
+    }
+    if res2 is Some {
+        let r2 = res2.unwrap();
+        if exists|th: Theta| #[trigger] solves(th, r2@) {
+            let th = choose|th: Theta| #[trigger] solves(th, r2@);
+            lemma_solves_mono(th, r2@, ss@);
+            assert(solves(th, ss@) && ap(th, a) == ap(th, b));
+        }
+    }
+    if res1 is Some && res2 is Some {
+        let r1 = res1.unwrap();
+        let r2 = res2.unwrap();
+        assert forall|th: Theta| #[trigger] solves(th, r1@) implies #[trigger] solves(th, r2@) by {
+            lemma_solves_mono(th, r1@, ss@);
+            assert(solves(th, ss@) && ap(th, b) == ap(th, a));
+        }
+        assert forall|th: Theta| #[trigger] solves(th, r2@) implies #[trigger] solves(th, r1@) by {
+            lemma_solves_mono(th, r2@, ss@);
+            assert(solves(th, ss@) && ap(th, a) == ap(th, b));
+        }
+    }
+}
+
+// soundness instance: "success" of a variable against an atom without any binding is refused by #th_sound
+pub proof fn smoke_thsound(a: Unifiable, b: Unifiable, ss: RSS, res: Option<RSS>)
+    requires post_thsound(a, b, ss, res), a is LogicVar, b is Atom, ss@.len() == 0, res is Some,
+    ensures exists|i: int| 0 <= i < res.unwrap()@.len() && #[trigger] res.unwrap()@[i] is Some,
+{
+    let r = res.unwrap();
+    if forall|i: int| 0 <= i < r@.len() ==> !(#[trigger] r@[i] is Some) {
+        let th: Theta = |i: int| GT::GFree(0);
+        assert(solves(th, r@));
+        assert(ap(th, a) == ap(th, b));
+        assert(false);
     }
 }
